@@ -42,6 +42,8 @@ pub enum Plan {
     PrivateDataUnknownTag,
     PrivateDataTwice,
     PrivateDataWrongOp,
+    /// direction input `k` of a Merkle shape gets the non-boolean value `v`
+    NonBooleanBit(usize, u64),
 }
 impl Plan {
     pub fn name(&self) -> String {
@@ -50,6 +52,7 @@ impl Plan {
             Plan::PrivateLen(d) => format!("private_len{d:+}"),
             Plan::ConflictPublic(_) => "conflict_public".into(),
             Plan::ConflictPrivate(_) => "conflict_private".into(),
+            Plan::NonBooleanBit(..) => "nonbooleanbit".into(),
             p => format!("{p:?}").to_lowercase(),
         }
     }
@@ -67,6 +70,7 @@ impl Plan {
             // from the plan alone; the twin-build agreement is the oracle there
             Plan::ConflictPublic(_) | Plan::ConflictPrivate(_) => None,
             Plan::PrivateDataWithheld | Plan::PrivateDataUnknownTag | Plan::PrivateDataTwice | Plan::PrivateDataWrongOp => Some(true),
+            Plan::NonBooleanBit(..) => Some(true),
         }
     }
 }
@@ -85,6 +89,8 @@ pub enum Shape {
     PermOnPrivateFilledLater,
     /// Merkle path verification with private sibling data
     Mmcs,
+    /// arity-4 Merkle path verification (width-32 permutation, two direction bits per level)
+    MmcsQuad,
     /// two public inputs merged by `connect` (one slot, two public rows), used by an ALU op
     MergedPublics,
     /// a private input connected to a public input (one slot), used by an ALU op
@@ -148,6 +154,7 @@ fn build_shape(shape: &Shape) -> Result<(p3_circuit::Circuit<EF>, Vec<EF>, Vec<E
             let v = EF::from_u64(21);
             if merged_pub { Ok((c, vec![v, v, EF::from_u64(4)], vec![], vec![])) } else { Ok((c, vec![v, EF::from_u64(4)], vec![v], vec![])) }
         }
+        Shape::MmcsQuad => Err("handled by run_case_quad".into()),
         Shape::Mmcs => {
             // a 4-leaf Merkle path check: shape M of C08 (single 4x3 matrix)
             use p3_commit::Mmcs as _;
@@ -188,7 +195,68 @@ fn err_kind(e: &str) -> String {
 }
 
 /// Execute one case; returns the outcome string "ok:<digest>" | "err:<Kind>" | "panic:<kind>".
+fn quad_shape() -> crate::props::c08::MmcsShape {
+    crate::props::c08::MmcsShape { universe: "U-KB4-A4".into(), dims: vec![(16, 3), (4, 2)], cap_height: 0, seed: 5 }
+}
+
+/// The arity-4 Merkle shape under the plans that apply to it (it has public inputs and private
+/// sibling data, no private inputs).
+fn run_case_quad(plan: &Plan) -> String {
+    let (c, pubs, data, dir_off, n_dirs) = match crate::props::c08::kb4a4::build_parts(&quad_shape(), 6) {
+        Ok(x) => x,
+        Err(e) => return format!("builderr:{}", err_kind(&e)),
+    };
+    let r = observe(|| -> Result<u64, String> {
+        let e = |x: p3_circuit::CircuitError| format!("{x:?}");
+        let mut r = c.runner();
+        let mut pubs2 = pubs.clone();
+        let mut set_pub = true;
+        match plan {
+            Plan::WithholdPublic => set_pub = false,
+            Plan::PublicLen(d) => {
+                if *d > 0 {
+                    pubs2.push(EF::ONE)
+                } else {
+                    pubs2.pop();
+                }
+            }
+            Plan::PublicZeroLen => pubs2.clear(),
+            Plan::ConflictPublic(i) => {
+                let k = i % pubs2.len();
+                pubs2[k] += EF::ONE;
+            }
+            Plan::NonBooleanBit(k, v) => pubs2[dir_off + k % n_dirs] = EF::from_u64(*v),
+            _ => {}
+        }
+        if set_pub {
+            r.set_public_inputs(&pubs2).map_err(e)?;
+            if *plan == Plan::SetPublicTwiceDifferent {
+                let mut p3v = pubs2.clone();
+                p3v[0] += EF::ONE;
+                r.set_public_inputs(&p3v).map_err(e)?;
+            }
+        }
+        let cfg = p3_circuit::ops::Poseidon2Config::KOALA_BEAR_D4_W32;
+        for (i, (op, flat)) in data.iter().enumerate() {
+            if *plan == Plan::PrivateDataWithheld && i == 0 {
+                continue;
+            }
+            r.set_private_data(*op, p3_circuit::ops::perm_private_data(cfg, flat.clone())).map_err(e)?;
+        }
+        let t = r.run().map_err(e)?;
+        Ok(pipe::traces_digest::<U>(&t))
+    });
+    match r {
+        Ok(Ok(d)) => format!("ok:{d:016x}"),
+        Ok(Err(e)) => format!("err:{}", err_kind(&e)),
+        Err(p) => format!("panic:{}", err_kind(&p)),
+    }
+}
+
 pub fn run_case(shape: &Shape, plan: &Plan) -> String {
+    if matches!(shape, Shape::MmcsQuad) {
+        return run_case_quad(plan);
+    }
     let (c, pubs, privs, ops) = match build_shape(shape) {
         Ok(x) => x,
         Err(e) => return format!("builderr:{}", err_kind(&e)),
@@ -227,6 +295,11 @@ pub fn run_case(shape: &Shape, plan: &Plan) -> String {
                 if !pubs2.is_empty() {
                     let k = i % pubs2.len();
                     pubs2[k] += EF::ONE;
+                }
+            }
+            Plan::NonBooleanBit(k, v) => {
+                if is_mmcs {
+                    pubs2[3 + k % 2] = EF::from_u64(*v);
                 }
             }
             Plan::ConflictPrivate(i) => {
@@ -335,9 +408,23 @@ pub fn cases_for(seed: u64, idx: u64) -> Vec<(String, Shape, Plan)> {
             v.push((name.clone(), s.clone(), p));
         }
         if matches!(s, Shape::Mmcs) {
+            for (k, val) in [(0, 2), (1, 2), (0, 7), (1, 2013265920)] {
+                v.push((name.clone(), s.clone(), Plan::NonBooleanBit(k, val)));
+            }
             for p in [Plan::PrivateDataWithheld, Plan::PrivateDataUnknownTag, Plan::PrivateDataTwice, Plan::PrivateDataWrongOp] {
                 v.push((name.clone(), s.clone(), p));
             }
+        }
+    }
+    // the arity-4 Merkle shape: public-input plans, withheld sibling data, and every direction
+    // input (low and high bit of each quaternary level) set to a non-boolean value
+    let quad = ("mmcs_quad".to_string(), Shape::MmcsQuad);
+    for p in [Plan::Control, Plan::WithholdPublic, Plan::PublicLen(1), Plan::PublicLen(-1), Plan::PublicZeroLen, Plan::SetPublicTwiceSame, Plan::SetPublicTwiceDifferent, Plan::ConflictPublic(rng.usize_below(8)), Plan::PrivateDataWithheld] {
+        v.push((quad.0.clone(), quad.1.clone(), p));
+    }
+    for k in 0..4 {
+        for val in [2u64, 7] {
+            v.push((quad.0.clone(), quad.1.clone(), Plan::NonBooleanBit(k, val)));
         }
     }
     v
@@ -527,7 +614,7 @@ pub fn main(ctx: &Ctx) -> i32 {
         runs,
         Spec {
             level: "fault_enumeration",
-            rule: "one run = seven circuits (private inputs consumed by a Poseidon2 permutation; by the recompose table; by a permutation while the same slot is filled later by another op; a Merkle path check with private sibling data; three seeded G-prog programs with hints) x every input-fault plan (withhold public / private / both, length +1 / -1 / 0, set twice same / different, conflicting public / private value, private data withheld / unknown tag / set twice / wrong op id) + a fault-free control; every case is executed by two builds of the same harness that differ only in debug-assertions, each in a crash-isolated worker; outcomes (ok + trace digest | error class | panic | abort) must be identical, a fault that must fail must not return ok, the control must return ok with identical digests. distinct = distinct (circuit class, plan).",
+            rule: "one run = seven circuits (private inputs consumed by a Poseidon2 permutation; by the recompose table; by a permutation while the same slot is filled later by another op; a Merkle path check with private sibling data, binary and quaternary (the latter under the public-input plans, withheld sibling data and non-boolean values on every direction input, low and high bit); three seeded G-prog programs with hints) x every input-fault plan (withhold public / private / both, length +1 / -1 / 0, set twice same / different, conflicting public / private value, private data withheld / unknown tag / set twice / wrong op id) + a fault-free control; every case is executed by two builds of the same harness that differ only in debug-assertions, each in a crash-isolated worker; outcomes (ok + trace digest | error class | panic | abort) must be identical, a fault that must fail must not return ok, the control must return ok with identical digests. distinct = distinct (circuit class, plan).",
             exhaustive: true,
             assumptions: vec!["exhaustive over the listed plans for each circuit; G-prog circuits sampled".into(), "the unchecked build can exhibit undefined behaviour: a 'same outcome' observation there is evidence, not proof, of absence of UB (no Miri arm in this check)".into()],
             components_real: vec!["CircuitRunner (set_public_inputs, set_private_inputs, set_private_data[_by_tag], run)", "ExecutionContext::get_witness (checked and unchecked builds)", "Poseidon2 / recompose / MMCS executors"],
@@ -561,6 +648,7 @@ fn judge(idx: u64, desc: &str, opt: &str, chk: &str, all: &[(String, String)], o
     // both agree: is the common outcome acceptable?
     let control_ok = all.iter().any(|(d, o)| d.starts_with(shape) && d.ends_with(" control") && o.starts_with("ok"));
     let must_fail = match plan {
+        "withholdpublic" | "publiczerolen" if shape_class == "mmcs_quad" => Some(true),
         "withholdpublic" | "withholdprivate" | "withholdboth" | "publiczerolen" | "privatezerolen" => None, // depends on counts: decided below
         p if p.starts_with("public_len") || p.starts_with("private_len") => Some(true),
         "privatedatawithheld" | "privatedataunknowntag" | "privatedatatwice" | "privatedatawrongop" => Some(true),
@@ -568,7 +656,8 @@ fn judge(idx: u64, desc: &str, opt: &str, chk: &str, all: &[(String, String)], o
         // every hand-built shape has at least one public input; setting it twice with different
         // values is a conflict whatever consumes it
         "setpublictwicedifferent" if !shape.starts_with("prog") => Some(true),
-        "setprivatetwicedifferent" if !shape.starts_with("prog") && shape_class != "mmcs" && shape_class != "merged_publics" => Some(true),
+        "setprivatetwicedifferent" if !shape.starts_with("prog") && !shape_class.starts_with("mmcs") && shape_class != "merged_publics" => Some(true),
+        "nonbooleanbit" => Some(true),
         // one slot, two inputs: a value changed in either of them conflicts with the other
         "conflict_public" | "conflict_private" if shape_class == "merged_publics" || shape_class == "private_is_public" => {
             if plan == "conflict_private" && shape_class == "merged_publics" { None } else { Some(true) }
